@@ -11,9 +11,14 @@ package props
 import (
 	"context"
 	"fmt"
+	"github.com/bbockelm/cedar/ccb"
+	"github.com/bbockelm/cedar/stream"
+	"net"
 	"sort"
 	"strings"
 	"time"
+	"verif/netsim"
+	"verif/refcodec"
 
 	"github.com/bbockelm/cedar/security"
 
@@ -433,10 +438,71 @@ func c07BFS(depth, maxSessions, layout int, res *vlib.Result) {
 	res.Sample = map[string]any{"depth": depth, "canonical_states": len(seen), "events": evs}
 }
 
+// c07Carrier: two brokers reached through a caller-supplied carrier (ccb's BrokerDialer,
+// e.g. a tunnel) whose connections all report the SAME remote address. The client's
+// session cache must still tell the brokers apart by the address that was dialled.
+func c07Carrier(res *vlib.Result) {
+	ctx := context.Background()
+	cache := security.NewSessionCache()
+	brokers := []string{"10.5.5.5:9618", "10.6.6.6:9618", "10.5.5.5:9618"}
+	sids := map[string]string{}
+	for step, broker := range brokers {
+		res.Evals++
+		res.Nontrivial++
+		res.Transitions++
+		w := netsim.NewWorld(2)
+		ce, se := netsim.Pipe(w, "10.1.1.1:5000", "10.0.0.9:1") // the carrier's own endpoint, the same for every broker
+		se.Record = true
+		sc := baseCfg(security.SecurityRequired, security.SecurityRequired, []security.AuthMethod{mCTB}, []security.CryptoMethod{security.CryptoAES}, true)
+		sc.PostAuthPolicy = func(u, p string, a, e bool) (string, []int) { return "", []int{ccb.CommandRequest} }
+		var sneg *security.SecurityNegotiation
+		var serr error
+		done := make(chan struct{})
+		go func() {
+			defer close(done)
+			defer w.Done()
+			st := stream.NewStream(se)
+			sneg, serr = security.NewAuthenticator(sc, st).ServerHandshake(ctx)
+			se.Close()
+		}()
+		cc := baseCfg(security.SecurityRequired, security.SecurityRequired, []security.AuthMethod{mCTB}, []security.CryptoMethod{security.CryptoAES}, false)
+		cc.SessionCache = cache
+		neg, err := ccb.VerifDialBrokerAuthCmd(ctx, broker, cc, ccb.CommandRequest, func(ctx context.Context, addr string) (net.Conn, error) { return ce, nil })
+		w.Done()
+		<-done
+		id := fmt.Sprintf("carrier connection %d to broker %s", step, broker)
+		if err != nil || serr != nil {
+			res.Violate("C07/carrier/handshake-failed", "%s: client %s server %s", id, errStr(err), errStr(serr))
+			return
+		}
+		_ = sneg
+		reqSid := ""
+		if fr, _ := refcodec.ParseFrames(se.Got); len(fr) > 0 && len(fr[0].Body) > 8 {
+			ad := (&wireReader{b: fr[0].Body[8:]}).ad()
+			if ad.str("UseSession") == "YES" {
+				reqSid = ad.str("Sid")
+			}
+		}
+		if reqSid != "" && sids[broker] != reqSid {
+			owner := "nobody"
+			for b, s := range sids {
+				if s == reqSid {
+					owner = b
+				}
+			}
+			res.Violate("C07/carrier/rode-foreign-session", "%s: the client asked to resume session %s, which it established with broker %s (connections through the carrier all report remote address 10.0.0.9:1)", id, short(reqSid), owner)
+		}
+		if reqSid == "" {
+			sids[broker] = neg.SessionId
+		}
+		res.Outcome(map[bool]string{true: "carrier-resumed", false: "carrier-full-handshake"}[reqSid != ""])
+	}
+}
+
 func C07Plan() *vlib.Plan {
 	p := &vlib.Plan{
 		Property: "C07", Level: "model_checking", Workers: 1,
-		Rule:   "E-BFS over client-side histories: 12 handshake events (tag in {'',T1,T2} x server in {A,B} x command in {5,6}; A declares ValidCommands {5}, B {5,6}) + restart A/B (server forgets), break the next resumption exchange (request lost / reply lost / peer silent until the client's context is cancelled), advance virtual time (lease+60, duration+60), invalidate the newest session, sweep expired. Histories are replayed on a fresh client cache against two real servers, in two layouts: two hosts (cache keyed by the connection's peer address) and two daemons behind one shared port whose sinful strings differ only in sock= (cache keyed by the PeerName the client dials); canonical state = multiset of (tag, server, ValidCommands, status, server-knows) + pending break. Oracle: reference map (tag, address, command) -> sessions that may be reused; the request the server receives (parsed off the wire) must name only an allowed session; after a failed resumption the session and every route to it are gone; after every event every route in the real cache must be allowed by the reference. Only safety is demanded (not resuming is never a violation).",
+		Rule:   "E-BFS over client-side histories: 12 handshake events (tag in {'',T1,T2} x server in {A,B} x command in {5,6}; A declares ValidCommands {5}, B {5,6}) + restart A/B (server forgets), break the next resumption exchange (request lost / reply lost / peer silent until the client's context is cancelled), advance virtual time (lease+60, duration+60), invalidate the newest session, sweep expired. Histories are replayed on a fresh client cache against two real servers, in two layouts: two hosts (cache keyed by the connection's peer address) and two daemons behind one shared port whose sinful strings differ only in sock= (cache keyed by the PeerName the client dials); canonical state = multiset of (tag, server, ValidCommands, status, server-knows) + pending break. Oracle: reference map (tag, address, command) -> sessions that may be reused; the request the server receives (parsed off the wire) must name only an allowed session; after a failed resumption the session and every route to it are gone; after every event every route in the real cache must be allowed by the reference. Only safety is demanded (not resuming is never a violation). Plus the ccb broker path with a caller-supplied carrier whose connections all report one remote address: broker A, broker B, broker A again - B must not be asked to resume A's session.",
 		Assume: []string{"virtual time by re-storing entries with shifted expirations; judgements within 30 s of an expiry are skipped", "sequential, one process (server cache is process-global)"},
 	}
 	p.Gen = func(tier string, yield func(vlib.Case)) {
@@ -448,6 +514,11 @@ func C07Plan() *vlib.Plan {
 		yield(vlib.Case{ID: fmt.Sprintf("bfs/depth=%d", D), Run: func() *vlib.Result {
 			res := &vlib.Result{}
 			c07BFS(D, S, 0, res)
+			return res
+		}})
+		yield(vlib.Case{ID: "ccb-carrier/two-brokers-one-remote-address", Run: func() *vlib.Result {
+			res := &vlib.Result{}
+			c07Carrier(res)
 			return res
 		}})
 		yield(vlib.Case{ID: fmt.Sprintf("bfs/shared-port-daemons/depth=%d", D), Run: func() *vlib.Result {
